@@ -152,6 +152,19 @@ def units(ctx):
         return
     from ..dataflow import possible_callees
     kcalls = [n for n in own_nodes(f.node) if isinstance(n, ast.Call) and "_biot_savart_2d_vector" in possible_callees(f.node, n)]
+    # arguments packed in a local tuple and starred (`sheet = (p, J, a); kernel(x, *sheet)`) are read element by element
+    from ..dataflow import assignments as _asg
+    import copy as _copy
+    for kc in kcalls:
+        flat = []
+        for a_ in kc.args:
+            defs_ = [v for _, v in _asg(f.node).get(a_.value.id, [])] if isinstance(a_, ast.Starred) and isinstance(a_.value, ast.Name) else []
+            if len(defs_) == 1 and isinstance(defs_[0], ast.Tuple):
+                flat += list(defs_[0].elts)
+            else:
+                flat.append(a_)
+        if len(flat) != len(kc.args):
+            kc.args = flat
     if len(kcalls) != 1 or len(kcalls[0].args) != 4:
         raise AnalysisError("biot_savart_2d no longer calls _biot_savart_2d_vector(eval_positions, positions, current_densities, areas)")
 
@@ -174,8 +187,10 @@ def units(ctx):
     ctx.ob("R20.4", "currents reach the kernel in A/m (scaled once), areas in m^2", ok, detail={"J": str(cd), "areas": str(ar)}, where=f.fq,
            construct="SI scaling of kernel arguments", message=f"J = {cd}, areas = {ar}", consequence="the field is off by a power of the length unit")
     rets = [n for n in own_nodes(f.node) if isinstance(n, ast.Return)]
-    ok = len(rets) == 1 and isinstance(rets[0].value, ast.BinOp) and isinstance(rets[0].value.op, ast.Mult) and \
-        "ureg('tesla')" in (norm(rets[0].value.left), norm(rets[0].value.right))
+    # every return is `<kernel result> * ureg('tesla')` (one return, or one per kernel)
+    from ..dataflow import expand as _xp
+    ok = bool(rets) and all(isinstance(_xp(f.node, r.value), ast.BinOp) and isinstance(_xp(f.node, r.value).op, ast.Mult) and
+                            "ureg('tesla')" in (norm(_xp(f.node, r.value).left), norm(_xp(f.node, r.value).right)) for r in rets)
     ctx.ob("R20.4", "the kernel output is labelled tesla", ok, detail=[norm(r) for r in rets], where=f.fq, construct="result unit",
            message="result is not labelled tesla", consequence="downstream conversion treats SI tesla as another unit")
     # convert_field
